@@ -284,6 +284,28 @@ func Unblock(tok int64, label int32) {
 	S.unblock(int32(tok), label)
 }
 
+// Guard is deferred right after a Block whose operation can panic while the
+// task is really blocked (a send on a channel that gets closed): the panic
+// skips the Unblock that follows the operation, so the woken goroutine would
+// run deferred code without holding the token. Guard performs the missing
+// Unblock before any other deferred function runs.
+func Guard(tok int64, label int32) {
+	if tok == 0 {
+		return
+	}
+	if stale(tok) {
+		select {}
+	}
+	s := S
+	s.mu.Lock()
+	t := s.tasks[int32(tok)-1]
+	pending := t.inBlock
+	s.mu.Unlock()
+	if pending {
+		s.unblock(int32(tok), label)
+	}
+}
+
 // SelOrder returns the order in which the comm clauses of a select are probed.
 func SelOrder(label int32, n int) []int {
 	o := make([]int, n)
